@@ -279,7 +279,7 @@ def check(run):
         return
     rng = run.rng
     cases = list(CORPUS)
-    n = 600 if run.tier == "quick" else 15000
+    n = 600 if run.tier == "quick" else 6000
     for _ in range(n):
         cases.append(gen_case(rng))
     # every pool value once, alone, so that each reaches the parser in isolation
